@@ -28,7 +28,6 @@ static const cfg_t cfgs[] = {
     { "xbar n=2 r=3: U@ES1 + X", 1, 2, 2, { K_E1, K_X }, 3 },
     { "xbar n=3 r=2: M@ES0 + U@ES1 + U@ES2", 0, 3, 3, { K_M, K_E1, K_E2 }, 2 },
     { "xbar n=2 r=2: tasklet@ES1 + M@ES0", 0, 2, 2, { K_T1, K_M }, 2 },
-    { "xbar n=3 r=2: U@ES1 + U@ES2 + X", 0, 3, 3, { K_E1, K_E2, K_X }, 2 },
     { "xbar n=2 r=3: M@ES0 + U@ES1", 0, 2, 2, { K_M, K_E1 }, 3 },
     { "xbar n=2 r=3: X + X", 0, 2, 2, { K_X, K_X }, 3 },
 };
